@@ -177,12 +177,27 @@ func (c *VCtx) zeroInit(st *State, r *Term, t types.Type) {
 	if !ok {
 		return
 	}
+	if n, ok := t.(*types.Named); ok && n.Obj().Pkg() != nil && n.Obj().Pkg().Path() == "sync" {
+		return // internals of sync primitives are not modelled
+	}
+	isAtomic := false
+	if n, ok := t.(*types.Named); ok && n.Obj().Pkg() != nil && n.Obj().Pkg().Path() == "sync/atomic" {
+		isAtomic = true
+	}
 	for i := 0; i < stt.NumFields(); i++ {
 		f := stt.Field(i)
 		ft := f.Type()
+		if isAtomic && f.Name() != "v" {
+			continue
+		}
 		if isStruct(ft) {
 			if _, isTP := ft.(*types.TypeParam); !isTP {
-				c.zeroInit(st, c.embedAddr(r, t, f.Name(), ft), ft)
+				e := c.embedAddr(r, t, f.Name(), ft)
+				// memory of a fresh object is fresh
+				a := c.allocHeap(st)
+				c.fact(Not(Select(a, e)))
+				c.setHeap(st, "G:alloc", Store(a, e, True))
+				c.zeroInit(st, e, ft)
 				continue
 			}
 		}
